@@ -4,6 +4,7 @@ import SF.Lemmas.MinMax
 import SF.Lemmas.Welford
 import SF.Lemmas.Rsi
 import SF.Lemmas.Hln
+import SF.Lemmas.Lagf
 import SF.Expr
 /-
   C18 — Bounded memory: state size does not grow with stream length.
@@ -45,6 +46,10 @@ theorem rsi_bounded (N : Nat) (hN : 0 < N) : Core.SizeBounded (rsiCore (α := α
   fun xs s h => Rsi.size_le N hN xs s h
 theorem hln_bounded (N : Nat) (hN : 0 < N) : Core.SizeBounded (hlnCore (α := α) N) N :=
   fun xs s h => Hln.size_le N hN xs s h
+
+/-- LaguerreFilter never holds more than 9 scalars (2 per stage + the latest output), whatever the stream length -/
+theorem laguerre_bounded (g : α) : Core.SizeBounded (lagfCore (α := α) g) 9 :=
+  fun xs s h => Lagf.size_le g xs s h
 
 section transc
 variable [Transc α]
